@@ -92,6 +92,11 @@ CHECKS = {
         text="18 theorems C14_* are proved for every variable declaration, parameter vector and other bound pair; generated Modelica models (Real/Integer/Boolean variables of every role, min/max/start/nominal as constants or parameter expressions, fixed, output, a negated alias) with generated bound / history / seed series, parameters.csv and code overrides are compiled by pymoca and observed through dae_variables, output_variables, bounds() at every time, history(), seed(), parameters(), variable_nominal(), variable_is_discrete(); simulation models with initial_state.csv and seed() overrides are observed through get_var after initialize(); everything is compared with Modelica.v evaluated in Coq.",
         note="Trusted: Coq kernel + vm_compute; harness; pymoca (compiles the generated text and merges alias attributes). Whether a simulator start value is imposed or a soft target is not observed separately. No axioms. Three genuine defects repaired in /repo (f68aa34 signed nominal through negated alias, 5cbe9db file bound series replaced the declared min/max, 18a2784 variable type through negated alias raised TypeError).",
         ref="DESIGN.md §5 C14"),
+    "C11": dict(
+        technique="Coq proof (PI read-after-write identity for every well-formed store, padding side and amount, resize index law, six-decimal CSV rounding bound and exactness, typed parameter set/get) + correspondence of the Gallina PI file semantics against the real pi.Timeseries / csv / netcdf / ParameterConfig classes on generated files and operation sequences",
+        text="C11_pi_roundtrip (pi_read (pi_write st) = st for every well-formed store: any step or a non-equidistant axis, any ensemble size, any missing pattern, forecast anywhere on the axis), C11_padding_side, C11_resize_keeps, C11_outside_is_missing, C11_csv_precision, C11_csv_exact_on_six_decimals, C11_param_roundtrip, C11_param_keeps_type; generated PI XML files (sub-range series, ensembles with shared series, missing values, forecast on/off/outside the axis, qualifiers, 1 min .. 2 day steps, non-equidistant axes) are read by pi.Timeseries and compared with pi_read in Coq, written back and re-read, resized in sequences and compared with the resize model after every step and after write+read; new files in XML and binary form are re-read and compared with the store (binary at float32) and with pi_read (pi_write st); csv.save/load against fmt6 (both delimiters, decimal commas, empty columns, NaN); NetCDF export/import; ParameterConfig get/set/write/re-read against param_set.",
+        note="Trusted: Coq kernel + vm_compute; harness; ElementTree / numpy / netCDF4 codecs are exercised, not modelled; NetCDF has no Coq model (index mapping checked by the harness only); binary PI files are only generated for equidistant axes (the format carries no time stamps); values equal to the file's missVal are excluded (they are missing by the format). No axioms. Eight genuine defects repaired in /repo (ad729a7, 12312f3, c9c1083, 37807ad, b6c2013, 490b91a, 1ecb5c2, b35e79e).",
+        ref="DESIGN.md §5 C11"),
 }
 
 PENDING_REASON = "check not built yet (work in progress; see DESIGN.md §7 build order) — not claimed until its Coq model, theorems and correspondence check run clean on the unchanged tree"
